@@ -90,8 +90,21 @@ def follow_c11(f):
     return f['q'].startswith('rkcommon::')
 
 
-def mk_se(tu):
-    return SymExec(tu, own=lambda f: f['q'].startswith('rkcommon::'), inline_stmt=follow_c11)
+def flatten_names(tu):
+    """data members of AbstractArray<T> that hold the viewed range as one small aggregate value (struct { T *first; size_t count; }):
+    the rules read its members as members `items.first` / `items.count` of the array itself"""
+    out = set()
+    for r in tu.records.values():
+        if r.get('tmpl') == ABS and len(r.get('fields', [])) == 1:
+            inner = tu.records_by_type.get(r['fields'][0]['ct'])
+            if inner is not None and 1 < len(inner.get('fields', [])) <= 2 and not inner.get('bases') \
+                    and all(f_['ct'].endswith('*') or f_['ct'] in INT_TYPES for f_ in inner['fields']):
+                out.add(r['fields'][0]['name'])
+    return out
+
+
+def mk_se(tu, **kw):
+    return SymExec(tu, own=lambda f: f['q'].startswith('rkcommon::'), inline_stmt=kw.pop('inline_stmt', follow_c11), flatten=flatten_names(tu), **kw)
 
 
 def is_followed_helper(tu, f, class_fns, follow):
@@ -170,16 +183,20 @@ class Model:
         dict(P=begin member, N=count member|None, E=end member|None, size=normal form of the number of elements,
         end=normal form of the end pointer), or None when the members do not have one of these two shapes"""
         this = ('this',)
-        pf = [f for f in r['fields'] if f['ct'].endswith('*')]
-        nf_ = [f for f in r['fields'] if f['ct'] in INT_TYPES]
-        if len(r['fields']) != len(pf) + len(nf_):
+        fields = r['fields']
+        if len(fields) == 1 and fields[0]['name'] in flatten_names(self.tu):
+            inner = self.tu.records_by_type[fields[0]['ct']]
+            fields = [dict(f_, name='%s.%s' % (fields[0]['name'], f_['name'])) for f_ in inner['fields']]
+        pf = [f for f in fields if f['ct'].endswith('*')]
+        nf_ = [f for f in fields if f['ct'] in INT_TYPES]
+        if len(fields) != len(pf) + len(nf_):
             return None
         if len(pf) == 1 and len(nf_) == 1:
             P, N = pf[0]['name'], nf_[0]['name']
             return dict(P=P, N=N, E=None, size=('field', this, N), end=mk_comm('add', [('field', this, P), ('field', this, N)]))
         if len(pf) == 2 and not nf_:
             # which of the two is the begin pointer: the one begin() returns
-            se = SymExec(self.tu, own=lambda f: f['q'].startswith('rkcommon::'))
+            se = SymExec(self.tu, own=lambda f: f['q'].startswith('rkcommon::'), flatten=flatten_names(self.tu))
             begins = set()
             for f in self.tu.functions.values():
                 if f.get('recid') == r['id'] and not f['dep'] and self.tu.cfg(f) is not None and last(strip_targs(f['q'])) == 'begin':
@@ -427,6 +444,8 @@ class WrapperAnalysis:
             self.memo[key] = (outcomes, findings)
             return self.memo[key]
         basefields = (base[1], base[2])
+        rep_ = m.reps.get(base[0]['type'], {})
+        base_members = {x for x in (rep_.get('P'), rep_.get('N'), rep_.get('E')) if x}
         try:
             paths = se.paths(f, args=args)
         except Unsupported as e:
@@ -465,6 +484,7 @@ class WrapperAnalysis:
             mutated = {o: [] for o in tracked}
             copied_from = set()
             wrapper_assigned = {}
+            direct = {}
 
             def owner_of(place):
                 """(object, owner member) if the place is (inside) an owner member of a tracked object, or the object itself"""
@@ -601,6 +621,30 @@ class WrapperAnalysis:
                             else:
                                 st[X] = 'D'
                                 dirty_by[X] = ev
+                    continue
+                if ev.kind == 'store' and isinstance(ev.place, tuple) and len(ev.place) == 3 and ev.place[0] == 'field' and ev.place[1] in tracked \
+                        and ev.place[2] in base_members:
+                    # a (followed) helper of the base other than setPtr writes the viewed range directly (clearPtr(): items = Range()):
+                    # once both members are written this is what setPtr(pointer, count) does, and it is judged as such
+                    X = ev.place[1]
+                    pend = direct.setdefault(X, {})
+                    pend[ev.place[2]] = ev.value
+                    if len(pend) == len(base_members):
+                        pv = pend[basefields[0]]
+                        if rep_.get('N') is not None:
+                            nv = pend[rep_['N']]
+                        elif unver(pv) == ('null',) and unver(pend[rep_['E']]) == ('null',):
+                            nv = ('const', 0)
+                        else:
+                            nv = ('sub', pend[rep_['E']], pv)
+                        direct.pop(X)
+                        if X in mutable or X == this:
+                            from rkstatic.x_symnf import Event as _Ev
+                            sev = _Ev('call', ev.node, nf=None, place=X, how=SETPTR, value=(pv, nv), conds_n=ev.conds_n)
+                            sev.ver = ev.ver
+                            self.nsetptr += 1
+                            self.on_setptr(f, r, X, sev, st, src, dirty_by, tracked, owners, basefields, findings, path)
+                            did_setptr[X] = True
                     continue
                 if ev.kind in ('mutate', 'store'):
                     if ev.place is None:
@@ -1434,8 +1478,7 @@ def check_abstract(ctx, tu, tag=''):
     m = Model(tu)
     # inside AbstractArray its own members are followed too (a [[noreturn]] throwing helper, at() going through operator[]);
     # setPtr is analysed as an entry
-    se = SymExec(tu, own=lambda f: f['q'].startswith('rkcommon::'),
-                 inline_stmt=lambda f: follow_c11(f) or (f.get('rec') == ABS and last(strip_targs(f['q'])) != 'setPtr'))
+    se = mk_se(tu, inline_stmt=lambda f: follow_c11(f) or (f.get('rec') == ABS and last(strip_targs(f['q'])) != 'setPtr'))
     n = 0
     for r in m.unrecognised:
         ctx.undecided(R4, short(r['type']) + tag, 'the members %s are neither (pointer, count) nor (begin pointer, end pointer with begin() '
